@@ -214,7 +214,16 @@ func runC10(c *Ctx) {
 		c.CheckAt("uuid-input", "md5(\"OfflinePlayer:\"+name)@OfflinePlayerUUID", c.P.Pos(ou.Pos()), okIn, "the offline UUID must be the MD5 of exactly \"OfflinePlayer:\" followed by the name: "+detail)
 		// version / variant bits on the returned array
 		var st6, st8 *ssa.Store
-		eachInstr(ou, func(in ssa.Instruction) {
+		// OfflinePlayerUUID and the helper the bit stamping may have moved into (its parameters read as
+		// the call's arguments: stamp(digest, 3))
+		ouParts, ouRestore := boundParts(ou, 1)
+		defer ouRestore()
+		eachOU := func(f func(ssa.Instruction)) {
+			for _, part := range ouParts {
+				eachInstr(part, f)
+			}
+		}
+		eachOU(func(in ssa.Instruction) {
 			st, ok := in.(*ssa.Store)
 			if !ok {
 				return
@@ -245,9 +254,15 @@ func runC10(c *Ctx) {
 		}
 		// the array returned is the one the stores went to and the one md5 filled; the stores precede the return
 		okRet := false
-		for _, r := range returnsOf(ou) {
-			if st6 != nil && st8 != nil && domBefore(st6, r) && domBefore(st8, r) {
-				okRet = true
+		if st6 != nil && st8 != nil && st6.Parent() == st8.Parent() {
+			okRet = true
+			for _, r := range returnsOf(st6.Parent()) {
+				if !(domBefore(st6, r) && domBefore(st8, r)) {
+					okRet = false
+				}
+			}
+			if st6.Parent() != ou && liftTo(ou, st6) == nil {
+				okRet = false
 			}
 		}
 		c.CheckAt("uuid-bits", "version=3,variant=RFC4122@OfflinePlayerUUID", c.P.Pos(ou.Pos()), ok6 && ok8 && okRet,
